@@ -20,7 +20,17 @@ import (
 	"slipvc/vc"
 )
 
-const verifDir = "/verif"
+var verifDir = envOr("SLIPVC_VERIF", "/verif")
+
+// repoDir is the tree under verification (always /repo for registered commands; development tools point it at a scratch worktree)
+var repoDir = envOr("SLIPVC_REPO", "/repo")
+
+func envOr(k, d string) string {
+	if v := os.Getenv(k); v != "" {
+		return v
+	}
+	return d
+}
 
 // Item is one decided unit of a check: an obligation (or a bounded stand-in).
 type Item struct {
@@ -164,7 +174,7 @@ func checkCmd(args []string) {
 			c.Known = append(c.Known, f)
 		}
 	}
-	p, err := vc.Load("/repo", allPatterns()...)
+	p, err := vc.Load(repoDir, allPatterns()...)
 	if err != nil {
 		// the tree does not build: nothing can be decided; report as broken run
 		fmt.Println("ERROR: cannot load /repo:", err)
